@@ -248,6 +248,9 @@ pub fn process(case: &ProgCase, prop: &str, out: &mut RunOut, shrink: bool) -> P
         for (k, v) in &st.probes {
             out.count(k, *v);
         }
+        for (k, v) in &st.same_step {
+            out.count(&format!("same_step_completion_{}", k), v.0);
+        }
         let cur = out.counters.get("max_model_states").cloned().unwrap_or(0);
         if st.max_states as u64 > cur {
             out.counters.insert("max_model_states".into(), st.max_states as u64);
